@@ -274,7 +274,10 @@ MANIFEST = {
         "Basic._subs/_xreplace keyed by an arbitrary sub-term, through PoolSum — summand and pool values — and the decorator's methods): with "
         "symbol keys they coincide with the symbol-keyed subs/xreplace (theorems), and unfold(subs(old,new) t) = subs(old,new)(unfold t) for every key "
         "that is an uninterpreted node (ArraySymbol four-momentum, applied function, indexed symbol, folded instance of another class) whose head occurs "
-        "in no template of the class — for the regenerated table the heads of ArraySymbol, H(...) and B[...] are re-proved fresh on every run. Partial: classes whose evaluate() inspects its "
+        "in no template of the class — for the regenerated table the heads of ArraySymbol, H(...) and B[...] are re-proved fresh on every run. The laws hold with "
+        "MULTIPLICITY: the model never merges arguments or pool entries that a substitution makes equal, and that PoolSum.__new__ (through which subs/xreplace rebuild "
+        "a pool sum) stores the given values unchanged is a theorem of C18 (Props.C18: new_stores_given_values, subs_through_constructor) tied to the source by C18's "
+        "constructor stream. Partial: classes whose evaluate() inspects its "
         "arguments (today BlattWeisskopfSquared, PhaseSpaceFactorSWave) have no template in the model, their commutation law is checked on "
         "the real code only; deep doit() (iterated unfolding incl. SymPy's own doit on Sum/Piecewise) and the clause 'numpy code of folded "
         "= of unfolded' are not theorems. The code-generation clause is checked on the real code only, for every table class carrying a "
@@ -290,6 +293,9 @@ MANIFEST = {
         "after rebuilding with the real constructors; the same for subs/xreplace keyed by TERMS — an ArraySymbol (replaced by another one / by an "
         "ArraySum), an applied function, an indexed symbol, a folded sub-instance, compound sub-expressions (xreplace) — on an instance of every table "
         "class and on that instance inside PoolSum (summand, symbolic pool, nested), ArraySum, ArrayAxisSum, ArraySlice, ArrayMultiplication, "
+        "— plus, on the instance of every class inside a PoolSum whose pool is (pa, pb, 1) / (pa, pb) with literal duplicates (pb, pb), substitutions that IDENTIFY "
+        "two pool entries ({pa: c, pb: c}, {pa: pb}, {pa: 1}) or two arguments of an instance; results of the model are rebuilt WITHOUT PoolSum.__new__ "
+        "(Expr.__new__), so a normalisation inside the constructor cannot cancel out of the comparison — "
         "MatrixMultiplication, ComplexSqrt; the oracle checks subs/xreplace-then-doit against doit-then-subs/xreplace for these keys structurally, by "
         "the atoms left, by value and through lambdify on random four-momenta; non-SymPy attribute values include None, strings, classes and FUNCTIONS (closures of one "
         "factory = distinct objects with one qualified name, lambdas, a module-level function; a function is an opaque token with the identity "
